@@ -445,7 +445,7 @@ pub fn prop() -> Prop<FaultCase> {
             "merges use thresholds that make every non-empty file eligible",
         ],
         needs_shim: true,
-        budget: |t| t.pick(640, 16_000),
+        budget: |t| t.pick(1920, 24000),
         shards: |_| 16,
         strategy,
         exec,
